@@ -86,6 +86,9 @@ type Case struct {
 	Delim     string `json:"delim"`
 	// Unnamed: the plan has no name (`atlas migrate diff` without a name argument)
 	Unnamed bool `json:"unnamed,omitempty"`
+	// Rewrite: a longer plan with the same version and name is written first and then overwritten by the
+	// plan under test (`migrate diff` re-run after an edit): nothing of the first content may survive.
+	Rewrite bool `json:"rewrite,omitempty"`
 }
 
 func applicable(d, place string) bool {
@@ -355,17 +358,42 @@ func trip(c *rt.Ctx, w *rt.W, cs Case, keep string) (o outcome) {
 	}
 	dir := keep
 	if dir == "" {
-		dir, err = os.MkdirTemp(c.Scratch, fmt.Sprintf("c07-%d-", w.ID))
+		top, err := os.MkdirTemp(c.Scratch, fmt.Sprintf("c07-%d-", w.ID))
 		if err != nil {
 			panic(err)
 		}
-		defer os.RemoveAll(dir)
+		defer os.RemoveAll(top)
+		dir = top
+		if (len(o.want)+len(cs.Feats))%2 == 1 {
+			// glob meta characters in the directory's own path must not be read as a pattern
+			dir = filepath.Join(top, "release-[1.2]", "migrations[v2]")
+			if err := os.MkdirAll(dir, 0o755); err != nil {
+				panic(err)
+			}
+		}
 	}
 	d := dialects[cs.Dialect]
 	f := formatter(cs.Formatter)
 	md, err := openDir(cs.Formatter, dir)
 	if err != nil {
 		panic(err)
+	}
+	if cs.Rewrite {
+		longer := *plan
+		longer.Changes = append(append([]*migrate.Change(nil), plan.Changes...),
+			&migrate.Change{Cmd: "CREATE TABLE previous_content_1 (id int)", Comment: "previous content"},
+			&migrate.Change{Cmd: "CREATE TABLE previous_content_2 (id int, note text DEFAULT 'left over from the first write')", Comment: "previous content"},
+			&migrate.Change{Cmd: "CREATE TABLE previous_content_3 (id int)", Comment: "previous content"})
+		prev, err := f.Format(&longer)
+		if err != nil {
+			o.why, o.class = "Format: "+err.Error(), "format-error"
+			return
+		}
+		for _, fl := range prev {
+			if err := md.WriteFile(fl.Name(), fl.Bytes()); err != nil {
+				panic(err)
+			}
+		}
 	}
 	if cs.Formatter == "atlas" {
 		ld := md.(*migrate.LocalDir)
@@ -384,7 +412,8 @@ func trip(c *rt.Ctx, w *rt.W, cs Case, keep string) (o outcome) {
 			return
 		}
 		for _, fl := range files {
-			if err := os.WriteFile(filepath.Join(dir, fl.Name()), fl.Bytes(), 0o644); err != nil {
+			// through the directory's own WriteFile, as `migrate diff` does for every format
+			if err := md.WriteFile(fl.Name(), fl.Bytes()); err != nil {
 				panic(err)
 			}
 		}
@@ -512,6 +541,9 @@ func key(cs Case, class string) string {
 	if cs.Unnamed {
 		k += "|unnamed-plan"
 	}
+	if cs.Rewrite {
+		k += "|rewritten-file"
+	}
 	return k
 }
 
@@ -623,6 +655,7 @@ func run(c *rt.Ctx) {
 					cases = append(cases, Case{Dialect: d, Scenario: sc, Formatter: f, Indent: ind})
 				}
 				cases = append(cases, Case{Dialect: d, Scenario: sc, Formatter: f, Unnamed: true})
+				cases = append(cases, Case{Dialect: d, Scenario: sc, Formatter: f, Rewrite: true}, Case{Dialect: d, Scenario: sc, Formatter: f, Rewrite: true, Indent: "  "})
 				// a plan delimiter is a directive of the atlas format; the other formatters must still
 				// write files their readers split correctly when the plan carries one
 				if f != "atlas" {
